@@ -200,7 +200,7 @@ class Cut:
                 run.assume(f)
         if run.choose(name + ":body_or_exit", 2) == 0:
             run.assume(i < n)
-            interp.assign(node.target, Sym(i), env)
+            interp.assign(node.target, it.value_at(Sym(i)), env)
             try:
                 interp.exec_block(node.body, env)
             except BreakEx:
